@@ -119,6 +119,7 @@ structure Parser where
   stash : List Byte := []      -- stash[0 .. six)
   sentinel : Byte := 0         -- stash[six]
   eolp : Bool := false         -- the stash ends where a newline was, which the bytes to come may turn into a fold
+  skip : Bool := false         -- the line under way does not fit the stash: it is passed over as a whole
   buf : List Byte := []
   bix : Nat := 0
   comp : Comp := {}
@@ -148,7 +149,9 @@ def doProc (p : Parser) : Parser × PRes :=
   let (c, r) := procLine p.comp line
   ({ p with comp := c, stash := [], log := p.log ++ [line.takeWhile (· ≠ 0)] }, r)
 
-/-- `_ical_pull`; `fuel` bounds the `goto chop_more` loop (every round consumes at least one byte or returns) -/
+/-- `_ical_pull`; `fuel` bounds the `goto chop_more` loop (every round consumes at least one byte or returns).
+A line that does not fit the stash (`esccpy` says so) sets `skip`: nothing more of it is copied, and at its end it is
+dropped instead of being handed to `_ical_proc`, whatever the chunks were. -/
 def pull : Nat → Parser → Parser × PullRes
   | 0, p => (p, .need)
   | fuel+1, p =>
@@ -156,15 +159,17 @@ def pull : Nat → Parser → Parser × PullRes
     let bp := p.buf.getD p.bix 0
     let marked := p.eolp = true
     let p := if marked then { p with eolp := false } else p
-    if marked ∧ bp ≠ SP ∧ bp ≠ TAB then
-      -- `goto proc`: `if (!p->six || (res = _ical_proc(p)) == NULL) goto chop_more;` — an empty line is no line
-      if p.stash.length ≠ 0 then
+    -- `proc:` — a line passed over ends here; an empty line is no line; otherwise `_ical_proc`
+    let proc := fun (p : Parser) =>
+      if p.skip then pull fuel { p with skip := false, stash := [] }
+      else if p.stash.length ≠ 0 then
         let (p, r) := doProc p
         match r with
         | .none => pull fuel p
         | .eop => (p, .eop)
         | .ve => (p, .ve p.comp.cur)
       else pull fuel p
+    if marked ∧ bp ≠ SP ∧ bp ≠ TAB then proc p
     else
       let p := if marked then { p with bix := p.bix + 1 } else p      -- the folding whitespace
       let b := p.buf.drop p.bix
@@ -172,27 +177,21 @@ def pull : Nat → Parser → Parser × PullRes
       let six := p.stash.length
       let eol := findEol b (bz + 1) 0
       let noEol : Bool := match eol with | none => true | some e => decide (e ≥ bz)
-      if noEol && decide (bz ≥ stashSize - six) then
-        ({ p with stash := [] }, .need)                                 -- too long for the stash: dropped
-      else if noEol then
-        let (r, sent) := esccpy (stashSize - six) b
-        let stash' := match r with | some o => p.stash ++ o | none => p.stash
-        let sent := match r with | some _ => 0 | none => sent
-        ({ p with stash := stash', sentinel := sent, eolp := p.eolp || eol.isSome, bix := p.buf.length }, .need)   -- `BI = p->bsz`: the buffer is used up
+      if noEol then
+        -- the end of the buffer in the middle of a line: to the stash with what there is, without the folds
+        let p := if p.skip then p else
+          match esccpy (stashSize - six) b with
+          | (some o, _) => { p with stash := p.stash ++ o, sentinel := 0 }
+          | (none, _) => { p with skip := true, stash := [] }
+        ({ p with eolp := p.eolp || eol.isSome, bix := p.buf.length }, .need)   -- `BI = p->bsz`: the buffer is used up
       else
         let llen := eol.getD 0
-        let (r, sent) := esccpy (stashSize - six) (b.take llen)
         let p := { p with bix := p.bix + llen }
-        let p := match r with
-          | some o => { p with stash := p.stash ++ o, sentinel := 0 }
-          | none => { p with sentinel := sent }
-        if p.stash.length ≠ 0 then
-          let (p, r) := doProc p
-          match r with
-          | .none => pull fuel p
-          | .eop => (p, .eop)
-          | .ve => (p, .ve p.comp.cur)
-        else pull fuel p                                -- an empty line: go on with the next one
+        let p := if p.skip then p else
+          match esccpy (stashSize - six) (b.take llen) with
+          | (some o, _) => { p with stash := p.stash ++ o, sentinel := 0 }
+          | (none, sent) => { p with skip := true, sentinel := sent }
+        proc p
 
 /-- an instruction as the callers see it -/
 structure Instr where
